@@ -25,6 +25,7 @@ import (
 	"mime"
 	"net"
 	"net/http"
+	"runtime/debug"
 	"sort"
 	"strings"
 	"sync"
@@ -160,16 +161,16 @@ func features(v []byte) (string, bool) {
 // ---------------------------------------------------------------- case state
 
 type cs struct {
-	rnd       *rand.Rand
-	q         *fasthttp.Request
-	p         *fasthttp.Response
-	allow     map[string]int // lower-case neutralised field name -> max occurrences a peer may see
-	setNames  [][]byte       // names handed to a normalising setter
-	chunked   bool
-	protoVal  []byte // value fed to ResponseHeader.SetProtocol (nil: not used)
-	anyProto  []byte // value fed to any SetProtocol (request or response)
-	boundary  []byte
-	wantBody  string
+	rnd      *rand.Rand
+	q        *fasthttp.Request
+	p        *fasthttp.Response
+	allow    map[string]int // lower-case neutralised field name -> max occurrences a peer may see
+	setNames [][]byte       // names handed to a normalising setter
+	chunked  bool
+	protoVal []byte // value fed to ResponseHeader.SetProtocol (nil: not used)
+	anyProto []byte // value fed to any SetProtocol (request or response)
+	boundary []byte
+	wantBody string
 }
 
 func neutral(n []byte) string {
@@ -554,6 +555,18 @@ func peerFasthttp(wire []byte, isResp bool) (s seen) {
 
 // ---------------------------------------------------------------- the check
 
+// evAgg batches monitor event counters per block of cases (one mon lock per block
+// and counter instead of ~15 per case).
+type evAgg map[string]int
+
+func (e evAgg) Event(name string, n int) { e[name] += n }
+func (e evAgg) flush(r *mon.Run) {
+	for k, v := range e {
+		r.Event(k, v)
+		delete(e, k)
+	}
+}
+
 type verdict struct {
 	key, what string
 }
@@ -664,6 +677,8 @@ func serialise(c *cs, st *setter, mode int) (wire []byte, err error) {
 var respStatus = []int{200, 200, 200, 200, 404, 500, 201, 204, 304}
 
 func TestC05(t *testing.T) {
+	// short-lived garbage only (parsers, buffers): fewer GC cycles, same results
+	defer debug.SetGCPercent(debug.SetGCPercent(800))
 	r := mon.Start(t, "C05")
 	defer r.Finish()
 	tab := setters()
@@ -677,25 +692,31 @@ func TestC05(t *testing.T) {
 	n := r.N(100_000, 3_000_000)
 	const block = 500
 	blocks := (n + block - 1) / block
+	t0 := time.Now()
 	mon.Parallel(blocks, 0, func(bi int) {
+		ev := evAgg{}
 		for k := 0; k < block; k++ {
 			i := bi*block + k
 			if i >= n || !r.Want(i) {
 				continue
 			}
-			oneCase(r, tab, i)
+			oneCase(r, ev, tab, i)
 		}
+		ev.flush(r)
 	})
 	r.Require("cases", n)
 	r.Require("peer_accepts", n/2)
 	r.Require("raw_scans", n/2)
 
+	r.Set("wall_setter_cases_s", time.Since(t0).Seconds()) // evidence only, decides nothing
 	np := r.N(3_000, 60_000)
+	t1 := time.Now()
 	proxyCases(r, n, np)
+	r.Set("wall_proxy_cases_s", time.Since(t1).Seconds())
 	r.Require("proxy_requests_recorded", np/4)
 }
 
-func oneCase(r *mon.Run, tab []setter, i int) {
+func oneCase(r *mon.Run, ev evAgg, tab []setter, i int) {
 	rnd := r.Rand("setter", i)
 	st := &tab[i%len(tab)]
 	var v []byte
@@ -776,8 +797,8 @@ func oneCase(r *mon.Run, tab []setter, i int) {
 		wire, werr = serialise(c, st, mode)
 	}()
 	feat, nontrivial := features(v)
-	r.Event("cases", 1)
-	r.Event("setter:"+st.name, 1)
+	ev.Event("cases", 1)
+	ev.Event("setter:"+st.name, 1)
 	payload := func() map[string]any {
 		m := map[string]any{"setter": st.name, "value_q": fmt.Sprintf("%q", v), "wire_q": mon.Short(wire, 1500), "chunked": c.chunked, "disable_normalizing": disableNorm, "status": status}
 		if second != nil {
@@ -791,7 +812,7 @@ func oneCase(r *mon.Run, tab []setter, i int) {
 		return
 	}
 	if werr != nil {
-		r.Event("write_rejected", 1)
+		ev.Event("write_rejected", 1)
 		r.Case(st.name+"|"+feat+"|write-error", nontrivial)
 		// a rejected message must not have been partly emitted with an injection either: scan what was written.
 		if pos, ok := rawScan(wire); !ok {
@@ -803,7 +824,7 @@ func oneCase(r *mon.Run, tab []setter, i int) {
 		c.wantBody = "" // no body is sent for these (and none may be seen)
 	}
 	// (a) raw scan
-	r.Event("raw_scans", 1)
+	ev.Event("raw_scans", 1)
 	if pos, ok := rawScan(wire); !ok {
 		r.Violation(i, "bare-cr-lf/"+st.kind, fmt.Sprintf("%s(%s): CR or LF that is not a CRLF terminator at offset %d: %s", st.name, mon.Short(v, 80), pos, mon.Short(wire[max(0, pos-40):], 100)), payload())
 	}
@@ -824,31 +845,31 @@ func oneCase(r *mon.Run, tab []setter, i int) {
 	for _, peer := range []func([]byte, bool) seen{peerNetHTTP, peerStrict, peerFasthttp} {
 		s := peer(wire, isResp)
 		if s.rejected != nil {
-			r.Event("peer_rejects:"+s.peer, 1)
+			ev.Event("peer_rejects:"+s.peer, 1)
 			outcome += "r"
 			continue
 		}
 		accepted++
 		outcome += "a"
-		r.Event("peer_accepts", 1)
-		r.Event("peer_accepts:"+s.peer, 1)
+		ev.Event("peer_accepts", 1)
+		ev.Event("peer_accepts:"+s.peer, 1)
 		for _, vd := range judge(c, st, v, s) {
 			if vd.key == "" {
-				r.Event(vd.what, 1)
+				ev.Event(vd.what, 1)
 				continue
 			}
 			r.Violation(i, vd.key, fmt.Sprintf("%s(%s): %s", st.name, mon.Short(v, 120), vd.what), payload())
 		}
 	}
 	if accepted == 0 {
-		r.Event("all_peers_rejected", 1)
+		ev.Event("all_peers_rejected", 1)
 	}
 	if c.boundary != nil {
 		// not judged (see Assume): what a MIME parser makes of the boundary parameter
 		if st.side == 'q' {
 			_, params, err := mime.ParseMediaType(string(c.q.Header.ContentType()))
 			if err == nil && params["boundary"] != string(c.boundary) {
-				r.Event("boundary_param_differs", 1)
+				ev.Event("boundary_param_differs", 1)
 			}
 		}
 	}
